@@ -58,6 +58,11 @@ impl EnrKey for SigningKey {
 impl EnrKeyUnambiguous for SigningKey {
     fn decode_public(bytes: &[u8]) -> Result<Self::PublicKey, DecoderError> {
         // should be encoded in compressed form, i.e 33 byte raw secp256k1 public key
+        // (SEC1 also knows a 33 byte "compact" form, tag 0x05, which is not a valid ENR key and
+        // which other implementations reject)
+        if !matches!(bytes.first(), Some(0x02..=0x04)) {
+            return Err(DecoderError::Custom("Invalid Secp256k1 Signature"));
+        }
         VerifyingKey::from_sec1_bytes(bytes)
             .map_err(|_| DecoderError::Custom("Invalid Secp256k1 Signature"))
     }
